@@ -121,6 +121,9 @@ func TestMakeReplays(t *testing.T) {
 	fwd := &lib.Stmt{Kind: "select", Fields: []lib.SelField{{E: lib.Ref("m", lib.TyInt), Alias: "p"}, {E: lib.Ref("n", lib.TyInt), Alias: "m"}, {E: lib.Call("int", lib.Value()), Alias: "n"}}, Where: lib.Bin("^=", lib.Key(), lib.Str("a"))}
 	write("C05", "c05", "name-chain-listed-backwards", "select m as p, n as m, int(value) as n showed the text n in column p", &c05Case{Stmt: fwd, Pairs: abc, Batch: 2})
 
+	write("C09", "c09dyn", "number-and-text-one-group", "group by json(value)['n'] put the number 1 and the text \"1\" into one group", &c09DynCase{Pairs: []lib.Pair{{K: "k0", V: `{"n": 1}`}, {K: "k1", V: `{"n": "1"}`}, {K: "k2", V: `{"n": 1.0}`}}, Batch: 2})
+	write("C09", "c09", "simplified-aggregate-inside-call", "select str(count(1) > 0 | 1 = 1) returned one row per pair", &c09Case{Stmt: &lib.Stmt{Kind: "select", Fields: []lib.SelField{{E: lib.Call("str", lib.Bin("+", lib.Call("count", lib.Int(1)), lib.Int(0)))}, {E: lib.Bin("|", lib.Bin(">", lib.Call("count", lib.Int(1)), lib.Int(100)), lib.Bin("=", lib.Int(1), lib.Int(1)))}}, Where: lib.Bin("!=", lib.Key(), lib.Str("zz"))}, Pairs: abc, Batch: 2})
+
 	write("C03", "c03", "limit-skip-boundary", "limit 2,2 with batch size 2 returned rows 0-1", &c03Case{Stmt: &lib.Stmt{Kind: "select", Star: true, Where: lib.Bin("!=", lib.Key(), lib.Str("zz")), Lim: &lib.Limit{Start: 2, Count: 2, Two: true}}, Pairs: abc, Batch: 2, Batch2: 32})
 	write("C03", "c03", "in-split-row", "'1' in split(value, ',') failed row at a time only", &c03Case{Stmt: &lib.Stmt{Kind: "select", Fields: []lib.SelField{{E: lib.Key()}, {E: lib.Call("split", lib.Value(), lib.Str(","))}}, Where: lib.InList(lib.Str("1"), lib.Call("split", lib.Value(), lib.Str(",")))}, Pairs: abc, Batch: 2, Batch2: 32})
 	write("C03", "c03", "list-index-row", "list(1,2,3)[1] failed row at a time only", &c03Case{Stmt: &lib.Stmt{Kind: "select", Fields: []lib.SelField{{E: lib.Index(lib.Call("list", lib.Int(1), lib.Int(2), lib.Int(3)), 1)}}, Where: lib.Bin("^=", lib.Key(), lib.Str("a"))}, Pairs: abc, Batch: 2, Batch2: 32})
